@@ -22,7 +22,11 @@ PROPERTIES = {
                  "fragment delivers nothing, a complete single-fragment message that is due is delivered first with exactly its "
                  "stream id, protocol and payload; it terminates and raises nothing; an incoming stream reset "
                  "(_receive_reconfig_param, StreamResetOutgoingParam) drops the reassembly state of every listed stream and of "
-                 "no other, so a re-used stream id is expected from sequence number 0 again. Reduced: the general statement about every "
+                 "no other, so a re-used stream id is expected from sequence number 0 again; _mark_received reports exactly the "
+                 "TSNs at or before the cumulative point or already held as duplicates (nothing else changes then), and "
+                 "otherwise leaves the cumulative point fully consolidated - the TSN after it is not waiting in the "
+                 "out-of-order set - wherever the 32-bit numbers wrap (F-13 found and fixed), keeps only TSNs serially after "
+                 "the point, and adds none but the new one. Reduced: the general statement about every "
                  "yielded run (consecutive TSNs, B..E, concatenation), _mark_received, _receive_data_chunk, the send side and "
                  "the whole-history 'prefix of the sends' statement are not decided.",
         "note": "add_chunk assumes what its only caller establishes: no duplicate TSN in the queue (filtered by _mark_received) "
@@ -30,8 +34,9 @@ PROPERTIES = {
         "design_ref": "DESIGN.md 4.1, 9",
         "trusted_base": COMMON,
         "assumptions": ["A-WINDOW: live TSNs lie within 2^31 of each other"],
-        "not_decided": ["every yielded message is a consecutive-TSN run from a B chunk to the first E chunk (general O-5)",
-                        "_mark_received / _receive_data_chunk / _data_channel_receive", "_send fragmentation",
+        "not_decided": ["every yielded message is a consecutive-TSN run from a B chunk to the first E chunk (general O-5; F-12 open)",
+                        "_receive_data_chunk", "termination of the consolidation loop of _mark_received (finite set; "
+                        "decreases='unproved')", "_send fragmentation",
                         "induction over network histories (exactly once, prefix)"],
     },
     "C05": {
@@ -65,13 +70,19 @@ PROPERTIES = {
                  "chunk and no for one that is not due without touching anything, the retransmission limit decides by itself, "
                  "and a newly abandoned chunk marks (abandoned, not to be retransmitted) exactly the chunks of its message in "
                  "the sent queue - back to the first fragment and forward to the last - and no chunk of a neighbouring message. "
-                 "Reduced: fragments of the message still in the outbound queue (F-15), _receive_forward_tsn_chunk, expiry in "
+                 "RTCSctpTransport._receive_forward_tsn_chunk (receiver side) requests a SACK, ignores a FORWARD-TSN at or behind "
+                 "the cumulative point, otherwise moves the point to at least the forwarded TSN and consolidates it across "
+                 "the wrap, keeps only known out-of-order TSNs, and leaves every inbound stream well formed (the expected "
+                 "stream sequence number of a named stream stays 16-bit: 65535 + 1 wraps to 0); raises nothing. "
+                 "Reduced: fragments of the message still in the outbound queue (F-15), which messages the receiver delivers "
+                 "after a FORWARD-TSN, expiry in "
                  "_data_channel_flush, flight-size accounting and every schedule-level statement are not decided.",
         "note": "Only the listed functions are decided; nothing is claimed about other channels being undisturbed across a "
                 "whole exchange.",
         "design_ref": "DESIGN.md 4.6, 9",
-        "trusted_base": COMMON,
-        "not_decided": ["_maybe_abandon does not reach unsent fragments in _outbound_queue (F-15, open, outside every contract)", "_receive_forward_tsn_chunk", "_data_channel_flush expiry",
+        "trusted_base": COMMON + ["assumed contract: RTCSctpTransport._receive (delivery to the data-channel layer leaves TSN "
+                                  "bookkeeping and inbound streams alone)"],
+        "not_decided": ["_maybe_abandon does not reach unsent fragments in _outbound_queue (F-15, open, outside every contract)", "messages delivered / pruned after a FORWARD-TSN (only well-formedness is stated)", "_data_channel_flush expiry",
                         "flight-size accounting in _receive_sack_chunk (F-14)", "delivery resumes after recovery (liveness)"],
     },
     "C07": {
